@@ -354,56 +354,59 @@ def _run_pretty(pretty_fn, value, ctx, trailing_comment=None):
 
     ctx.start_visit(value)
 
-    if trailing_comment:
-        try:
-            doc = pretty_fn(
-                value,
-                ctx,
-                trailing_comment=trailing_comment
-            )
-        except TypeError as e:
-            # This is probably because pretty_fn does not support
-            # trailing_comment, but let's make sure.
-            sig = inspect.signature(pretty_fn)
+    try:
+        if trailing_comment:
             try:
-                sig.bind(value, ctx, trailing_comment=trailing_comment)
-            except TypeError:
-                fnname = '{}.{}'.format(
-                    pretty_fn.__module__,
-                    pretty_fn.__qualname__
+                doc = pretty_fn(
+                    value,
+                    ctx,
+                    trailing_comment=trailing_comment
                 )
-                warnings.warn(
-                    "The pretty printer for {}, {}, does not support rendering "
-                    "trailing comments. It will not show up in output.".format(
-                        type(value).__name__, fnname
+            except TypeError as e:
+                # This is probably because pretty_fn does not support
+                # trailing_comment, but let's make sure.
+                sig = inspect.signature(pretty_fn)
+                try:
+                    sig.bind(value, ctx, trailing_comment=trailing_comment)
+                except TypeError:
+                    fnname = '{}.{}'.format(
+                        pretty_fn.__module__,
+                        pretty_fn.__qualname__
                     )
-                )
+                    warnings.warn(
+                        "The pretty printer for {}, {}, does not support rendering "
+                        "trailing comments. It will not show up in output.".format(
+                            type(value).__name__, fnname
+                        )
+                    )
+                    doc = pretty_fn(value, ctx)
+                else:
+                    _warn_about_bad_printer(pretty_fn, value, exc=e)
+                    doc = repr(value)
+        else:
+            try:
                 doc = pretty_fn(value, ctx)
-            else:
+            except Exception as e:
                 _warn_about_bad_printer(pretty_fn, value, exc=e)
                 doc = repr(value)
-    else:
-        try:
-            doc = pretty_fn(value, ctx)
-        except Exception as e:
-            _warn_about_bad_printer(pretty_fn, value, exc=e)
-            doc = repr(value)
 
-    if not (
-        isinstance(doc, str) or
-        isinstance(doc, Doc)
-    ):
-        fnname = '{}.{}'.format(
-            pretty_fn.__module__,
-            pretty_fn.__qualname__
-        )
-        raise ValueError(
-            'Functions decorated with register_pretty must return '
-            'an instance of str or Doc. {} returned '
-            '{} instead.'.format(fnname, repr(doc))
-        )
-
-    ctx.end_visit(value)
+        if not (
+            isinstance(doc, str) or
+            isinstance(doc, Doc)
+        ):
+            fnname = '{}.{}'.format(
+                pretty_fn.__module__,
+                pretty_fn.__qualname__
+            )
+            raise ValueError(
+                'Functions decorated with register_pretty must return '
+                'an instance of str or Doc. {} returned '
+                '{} instead.'.format(fnname, repr(doc))
+            )
+    finally:
+        # Also when the printer (or the validation above) raises:
+        # the value is no longer being printed.
+        ctx.end_visit(value)
 
     return doc
 
